@@ -586,6 +586,38 @@ def check_raw(case):
 
 
 # ---------------------------------------------------------------------------
+# coverage-guided stage: first byte picks the target, the rest is what the
+# victim receives
+FUZZ_TARGETS = ["server_first", "client_after_hello", "established"]
+
+
+def fuzz_seeds():
+    out = []
+    for i, t in enumerate(FUZZ_TARGETS[:2]):
+        out.append(bytes([i]) + raw_seed(t))
+    out.append(bytes([2]) + prg(b"estab", 64))
+    out.append(bytes([2 + 3]) + prg(b"estab", 64))
+    return out
+
+
+def fuzz_case(data):
+    if len(data) < 2:
+        return None
+    t = FUZZ_TARGETS[data[0] % 3]
+    c = {"raw": t, "base": False, "hex": data[1:].hex()}
+    if t == "established":
+        c["v12"] = bool((data[0] // 3) % 2)
+    return c
+
+
+def fuzz_stage(tier, seed):
+    from vlib.fuzzstage import run_campaigns
+    if tier == "quick":
+        return run_campaigns("C08", seed, 3000, 4, 40, max_len=4096)
+    return run_campaigns("C08", seed, 200000, 16, 1500, max_len=4096,
+                         empty_corpus_procs=2)
+
+
 EXT_OPS = ["empty", "trunc", "extend", "dup", "remove", "garbage", "inner0",
            "innerlen", "add_unknown", "add_known", "only"]
 
